@@ -64,7 +64,69 @@ def load_pyxab():
         mods[m] = importlib.import_module("PyXAB.partition." + m)
     for m in OBJ_MODS:
         mods[m] = importlib.import_module("PyXAB.synthetic_obj." + m)
+    if _STATE["owners"] is None:
+        snapshot_state(mods)
     return mods
+
+
+# ------------------------------------------------------------------ process-wide state of the code under test
+# Module globals and class attributes of the PyXAB modules that hold data (containers, numbers): code that
+# memoises in them would carry values - proxies even - from one explored path into the next and into the
+# concrete replays.  They are put back to their import-time content before every path and every replay.
+_STATE = {"owners": None}
+_DATA = (list, dict, set, int, float, str, bool, tuple, type(None), Sym)
+
+
+def _data_attrs(owner):
+    out = {}
+    for k, v in list(vars(owner).items()):
+        if k.startswith("__") and k.endswith("__"):
+            continue
+        if isinstance(v, _DATA):
+            out[k] = v
+    return out
+
+
+def snapshot_state(mods):
+    import copy
+    owners = []
+    for m in mods.values():
+        owners.append(m)
+        for v in list(vars(m).values()):
+            if isinstance(v, type) and getattr(v, "__module__", None) == m.__name__:
+                owners.append(v)
+    snap = []
+    for o in owners:
+        d = _data_attrs(o)
+        snap.append((o, {k: (v, copy.deepcopy(v)) for k, v in d.items()}))
+    _STATE["owners"] = snap
+
+
+def restore_state():
+    """put the data-valued module globals / class attributes back (content and binding); drop the ones added since"""
+    import copy
+    if _STATE["owners"] is None:
+        return
+    for o, rec in _STATE["owners"]:
+        for k in list(_data_attrs(o)):
+            if k not in rec:
+                try:
+                    delattr(o, k)
+                except (AttributeError, TypeError):
+                    pass
+        for k, (obj, pristine) in rec.items():
+            if isinstance(obj, (list, dict, set)):
+                fresh = copy.deepcopy(pristine)
+                obj.clear()
+                if isinstance(obj, list):
+                    obj.extend(fresh)
+                else:
+                    obj.update(fresh)
+            if vars(o).get(k, _STATE) is not obj:
+                try:
+                    setattr(o, k, obj)
+                except (AttributeError, TypeError):
+                    pass
 
 
 # ------------------------------------------------------------------ math
